@@ -84,7 +84,7 @@ def gen_plan(rng, tier, index=0):
         r = rng.sub("extreme")
         kind = r.choice(["VK", "KOL"])
         px = round(r.logu(0.01, 0.3), 4)
-        p = {"nx": r.choice([5, 8, 9, 12, 16, 17]), "px": px, "r0": round(r.logu(0.05, 1.0), 4), "L0": round(px * r.logu(1e3, 1e7), 3)}
+        p = {"nx": r.choice([5, 8, 9, 12, 16, 17]), "px": px, "r0": round(r.logu(0.05, 1.0), 4), "L0": round(px * r.logu(1e3, 1e8), 3)}
         if kind == "VK":
             p["ncol"] = r.randint(1, 4)
         else:
@@ -106,11 +106,15 @@ def gen_plan(rng, tier, index=0):
                     {"add_row": 3, "read": 3, "print": 3, "hold": 1.5, "noise": 2, "clone": 0.6, "restart": 0.5},
                     {"add_row": 10, "read": 0.5, "print": 0.2, "hold": 0.6, "noise": 0.2, "clone": 0.2, "restart": 0.1}])
     steps = []
+    faulty = rng.sub("faulty").chance(0.3)           # a third of the programs meet failing allocations
     for _ in range(length):
         op = r.weighted(list(mix.items()))
         s = r.randrange(n_scr)
         if op == "add_row":
-            steps.append({"op": "add_row", "s": s})
+            st = {"op": "add_row", "s": s}
+            if faulty and r.sub("fault", len(steps)).chance(0.08):
+                st["fault"] = r.sub("fault-n", len(steps)).randint(0, 3)     # the n-th allocation inside this add_row fails
+            steps.append(st)
         elif op == "read":
             steps.append({"op": "read", "s": s, "how": r.choice(READ_KINDS)})
         elif op == "print":
@@ -211,6 +215,25 @@ def execute_extreme(plan, keep_log=False):
     res.count("extreme.constructed.%s" % kind)
     if beyond:
         res.count("extreme.beyond.accepted")
+        if kind == "VK":
+            # stability probe (scripted randomness: zeros and one unit impulse): a stable recursion lets the impulse response
+            # die out; one that still grows between steps 1500, 3000 and 6000 is unstable. Feeds the aggregate oracle only.
+            res.count("extreme.beyond.vk_accepted")
+            try:
+                sc = _Script(p["nx"], p["nx"] // 2)
+                with numpy.errstate(all="ignore"):
+                    s2 = screens.construct_infinite(kind, p, seams.ScriptedGenerator(sc, 0))
+                    m = []
+                    for t in range(6000):
+                        m.append(float(numpy.abs(s2.add_row()[0]).max()))
+                        res.steps += 1
+                if not sc.unexpected and sc.row_draws == len(m) and max(m) > 0:
+                    res.count("extreme.beyond.vk_probed")
+                    if not numpy.isfinite(m[-1]) or (m[-1] > 1.005 * m[2999] and m[2999] > m[1499]):
+                        res.count("extreme.beyond.vk_impulse_response_growing")
+                        log.add("extreme", "growing", p["nx"])
+            except Exception:
+                res.count("extreme.beyond.vk_probe_raised")
     N = p["nx"]
     prev = numpy.array(s.scrn, copy=True)
     if not numpy.isfinite(prev).all():
@@ -252,6 +275,8 @@ def _execute(plan, keep_log=False):
         return execute_stationary(plan, keep_log)
     if plan.get("mode") == "extreme":
         return execute_extreme(plan, keep_log)
+    if plan.get("mode") == "aggregate":
+        return execute_aggregate(plan, keep_log)
     import numpy
     res = core.Result()
     log = core.EventLog(keep_log)
@@ -261,6 +286,16 @@ def _execute(plan, keep_log=False):
     n = len(specs)
     canon, names = [], {}
 
+    alloc = seams.AllocFault()
+    alloc.install()
+    try:
+        return _execute_history(plan, keep_log, res, log, specs, n, canon, names, alloc)
+    finally:
+        alloc.uninstall()
+
+
+def _execute_history(plan, keep_log, res, log, specs, n, canon, names, alloc):
+    import numpy
     with seams.SimEnv(plan["entropy"]) as env:
         prim, twin, gens, model, rows, twin_rows, held, alive = [], [], [], [], [], [], [], []
         for i, sp in enumerate(specs):
@@ -349,8 +384,51 @@ def _execute(plan, keep_log=False):
             N = sp["params"]["nx"]
             canon.append("%s:%s" % (op if op not in ("read", "print") else op[0] + ":" + st["how"], cname(i)))
             if op == "add_row":
+                failed = None
+                if st.get("fault") is not None:
+                    # injected fault: an allocation inside this add_row fails. The call may raise (or cope); it must leave the screen
+                    # as it was or shifted by one proper row, and later steps must work as if nothing had happened
+                    alloc.arm(st["fault"])
+                    f0 = alloc.fired
+                    try:
+                        ret = s.add_row()
+                    except MemoryError as e:
+                        failed = e
+                    except Exception as e:
+                        failed = e
+                    finally:
+                        alloc.disarm()
+                    if alloc.fired > f0:
+                        res.count("fault.allocation_failed_inside_add_row")
+                        twin[i] = None                      # the random stream may or may not have advanced: no twin from here on
+                        if failed is not None:
+                            res.count("fault.add_row_raised_after_injected_failure")
+                            consecutive[i] = 0
+                            log.add(si, "add_row-fault", i, type(failed).__name__)
+                            try:
+                                cur = s.scrn
+                                okc = cur.shape == (N, N) and numpy.isfinite(cur).all() and (
+                                    screens.abytes(cur) == screens.abytes(model[i]) or screens.abytes(cur[1:]) == screens.abytes(model[i][:-1]))
+                            except Exception:
+                                okc = False
+                            if not okc:
+                                res.violate("fault", "C05:screen-corrupted-by-a-failed-add_row:%s" % sp["kind"],
+                                            "screen %d (%s): an add_row that failed with an injected MemoryError left an exposed screen that is neither "
+                                            "the previous one nor the previous one shifted by one row" % (i, sp["kind"]), si)
+                                alive[i] = False
+                                continue
+                            if screens.abytes(cur) != screens.abytes(model[i]):
+                                rows[i] += 1
+                            model[i] = numpy.array(cur, copy=True)
+                            continue
+                    elif failed is not None:
+                        pass
+                    # the fault did not fire (no allocation left to fail) or the library coped: judged like any add_row below
                 try:
-                    ret = s.add_row()
+                    if st.get("fault") is None:
+                        ret = s.add_row()
+                    elif failed is not None:
+                        raise failed
                     s.scrn
                 except Exception as e:
                     res.violate("raised", "C05:add_row-raised:%s:%s" % (sp["kind"], type(e).__name__),
@@ -683,30 +761,58 @@ def execute_stationary(plan, keep_log=False):
     return res
 
 
-def extra_stage(tier, base_seed, farm, stats=None, runs=None):
+def _aggregate_violations(stats):
     """aggregate oracle over the far-beyond region (L0 >= 1e5 pixels). There the unchanged constructor refuses the
     parameters (it lets about 1 in 30000 through, which then diverges: part of the open known finding). A tree on which
-    more than a few per cent of these parameter sets are accepted AND diverge fails for inputs the finding does not
-    describe; a tree that accepts them and stays finite is fine."""
-    stats = stats or {}
+    more than a few per cent of these parameter sets are accepted AND diverge (or, von Karman, have an impulse response
+    that keeps growing) fails for inputs the finding does not describe; a tree that accepts them and stays stable is fine."""
     n, acc, div = stats.get("extreme.beyond.configs", 0), stats.get("extreme.beyond.accepted", 0), stats.get("extreme.beyond.diverged", 0)
-    out = {"coverage": {"far_beyond_region": {"parameter_sets": n, "accepted_by_constructor": acc, "accepted_and_diverged": div}}, "violations": []}
+    nvk, grow = stats.get("extreme.beyond.vk_accepted", 0), stats.get("extreme.beyond.vk_impulse_response_growing", 0)
+    cov = {"parameter_sets": n, "accepted_by_constructor": acc, "accepted_and_diverged": div, "von_karman_accepted": nvk,
+           "von_karman_impulse_response_growing": grow}
+    out = []
+    if grow > max(3, 0.05 * n):
+        out.append(("stability", "C05:vk-recursion-not-stable:parameter-sets-beyond-1e5-pixels-accepted-and-unstable",
+                    "%d of %d parameter sets with an outer scale >= 1e5 pixels were accepted by the von Karman constructor and have an impulse "
+                    "response that is still growing after 6000 rows (the unchanged constructor refuses these parameters)" % (grow, n)))
     if div > max(3, 0.05 * n):
-        ex = None
-        for r in runs or []:
-            for v in r.get("violations", []):
-                if "outer-scale>=1e4" in v["sig"] and r.get("plan", {}).get("mode") == "extreme" and \
-                        r["plan"]["params"]["L0"] / r["plan"]["params"]["px"] >= 1e5:
-                    ex = (r["index"], r["plan"])
-                    break
-            if ex:
-                break
-        out["violations"].append({
-            "kind": "finite", "sig": "C05:non-finite-values:parameter-sets-beyond-1e5-pixels-accepted-and-diverging", "stage": "simulation",
-            "detail": "%d of %d parameter sets with an outer scale >= 1e5 pixels were accepted by the constructor and diverged to inf/nan "
-                      "(the open known finding covers isolated cases, about 1 in 30000)" % (div, n),
-            "index": ex[0] if ex else -1, "no_shrink": True, "plan": ex[1] if ex else None})
+        out.append(("finite", "C05:non-finite-values:parameter-sets-beyond-1e5-pixels-accepted-and-diverging",
+                    "%d of %d parameter sets with an outer scale >= 1e5 pixels were accepted by the constructor and diverged to inf/nan "
+                    "(the open known finding covers isolated cases, about 1 in 30000)" % (div, n)))
+    return cov, out
+
+
+def extra_stage(tier, base_seed, farm, stats=None, runs=None):
+    cov, viol = _aggregate_violations(stats or {})
+    out = {"coverage": {"far_beyond_region": cov}, "violations": []}
+    if viol:
+        # the replay file holds every far-beyond parameter set of this batch; replaying executes them all and applies the same rule
+        subs = []
+        for i in range(sizes(tier)["runs"]):
+            if i % 25 == 7 and i % sizes(tier)["stationary_every"] != 3:
+                pl = core.plan_for("C05", base_seed, i, tier)
+                if pl.get("mode") == "extreme" and pl["params"]["L0"] / pl["params"]["px"] >= 1e5:
+                    subs.append(pl)
+        for kind, sig, detail in viol:
+            out["violations"].append({"kind": kind, "sig": sig, "stage": "simulation", "detail": detail, "index": -1, "no_shrink": True,
+                                      "plan": {"mode": "aggregate", "plans": subs, "steps": None}})
     return out
+
+
+def execute_aggregate(plan, keep_log=False):
+    res = core.Result()
+    log = core.EventLog(keep_log)
+    for sub in plan["plans"]:
+        r = execute_extreme(sub, False)
+        for k, v in r.stats.items():
+            res.count(k, v)
+        res.steps += r.steps
+        log.add("aggregate", r.digest)
+    for kind, sig, detail in _aggregate_violations(res.stats)[1]:
+        res.violate(kind, sig, detail, -1)
+    res.digest = log.digest()
+    res.sched_digest = log.full_digest()
+    return res
 
 
 def simplify(plan):
